@@ -19,7 +19,7 @@ RULE = ('Forward: an output is built through Output(...) and Transaction.add_out
         'refusal or exactly the BIP141 script OP_n <programme>.  Cross-network: every ordered pair of networks x '
         'type x route; accepted iff the pinned tables share the prefix / HRP, otherwise an exception is demanded. '
         'Non-trivial = non-bitcoin network, or witness version >= 1, or a route other than the address string, or a '
-        'cross-network pair; distinct by (kind, route, api, networks, type, payload). [the lock_script route also through Output.parse and Transaction.parse / parse_hex / parse_bytesio of a transaction serialised with and without witness form]')
+        'cross-network pair; distinct by (kind, route, api, networks, type, payload). [the lock_script route also through Output.parse and Transaction.parse / parse_hex / parse_bytesio of a transaction serialised with and without witness form] [key routes: the key object may have been asked for another address form before]')
 ASSUMPTIONS = [
     'ref/address.py templates and encoders are correct (self-tested); ref/networks_pinned.json is the intended table',
     'networks that share a prefix / HRP are interchangeable for that address type (set semantics)',
